@@ -30,7 +30,11 @@ def handle : List String → Option String
     let r := runEvents {} evs
     let logs := r.2.map fun l => if l.isEmpty then "." else "+".intercalate (l.map showOut)
     let running := (r.1.reqs.filter (·.phase != .done)).length
-    pure (";".intercalate logs ++ s!" | now={r.1.now} running={running} listeners={r.1.listeners.length} pack={r.1.pack}")
+    -- did the model's event loop come to rest after every event (the fuel of `settle` sufficed)?
+    let unsettled := (evs.foldl (fun (acc : St × Nat) e => let s := step acc.1 e; (s, if s.ready.isEmpty then acc.2 else acc.2 + 1))
+      (({} : St), 0)).2
+    pure (";".intercalate logs ++
+      s!" | now={r.1.now} running={running} listeners={r.1.listeners.length} pack={r.1.pack} unsettled={unsettled}")
   | _ => none
 
 end Zboss.OpsHost
